@@ -32,6 +32,15 @@ CHECKS = {
             'prefix. LIMIT probed up to 10^30.',
             'Trusted: vlib/refmodel.py (one stable pass per key), Python sort; sort keys limited to comparable scalars.',
             'DESIGN.md section 4, C03'),
+    'C05': ('enumerated single-rule violations (~1000 statements incl. the complement of the operator/function typing table) expecting a ProgrammingError-family rejection; Hypothesis well-formed programs expecting acceptance; mutated / token-soup texts with exception bucketing; location-span and rendering checks',
+            'Both directions of "accepted exactly when": generated well-formed statements (text and AST) must compile, and an '
+            'enumerated catalogue of statements each breaking one rule must be rejected with ParseError / CompilationError / '
+            'ProgrammingError; token-level mutations and token soups, parsed and compiled against typed tables, must never '
+            'raise any other exception class; every carried location must be a valid span that shell.render_exception can '
+            'render. Known open findings are masked by exact root-cause signature.',
+            'Trusted: the rule catalogue in checks/c05.py (my reading of the property); function-argument ill-typedness is only '
+            'asserted where subclassing cannot match (bool/int, NULL/object).',
+            'DESIGN.md section 4, C05'),
     'C06': ('Hypothesis AST generation -> print in canonical and redundant styles -> parse round trip (deep type-strict equality); differential shipped parser vs grammar-compiled parser on valid and mutated texts',
             'Round trip over generated statement ASTs of all four kinds with every clause, operator nesting pair, literal '
             'form and identifier spelling, in three printing styles each; plus a differential run of the shipped parser '
